@@ -179,6 +179,32 @@ func FuncKey(f *ssa.Function) string {
 	return pkg + "." + f.Name()
 }
 
+// normaliseComparisons rewrites the analysis IR in place so that a comparison with a constant has the constant on
+// the right (`0 != x.Cmp(y)` becomes `x.Cmp(y) != 0`, `5 > n` becomes `n < 5`): both operands stay operands of the
+// same instruction, so no use lists change. Rules then see one spelling.
+func normaliseComparisons(all map[*ssa.Function]bool) {
+	flip := map[token.Token]token.Token{token.LSS: token.GTR, token.GTR: token.LSS, token.LEQ: token.GEQ, token.GEQ: token.LEQ, token.EQL: token.EQL, token.NEQ: token.NEQ}
+	for f := range all {
+		for _, b := range f.Blocks {
+			for _, ins := range b.Instrs {
+				bo, ok := ins.(*ssa.BinOp)
+				if !ok {
+					continue
+				}
+				fl, isCmp := flip[bo.Op]
+				if !isCmp {
+					continue
+				}
+				_, xc := bo.X.(*ssa.Const)
+				_, yc := bo.Y.(*ssa.Const)
+				if xc && !yc {
+					bo.X, bo.Y, bo.Op = bo.Y, bo.X, fl
+				}
+			}
+		}
+	}
+}
+
 // Load loads ./... under dir for the given GOOS/GOARCH.
 func Load(dir, goos, goarch string) (*Program, error) {
 	env := append(os.Environ(), "GOWORK=off", "GOFLAGS=-mod=mod", "GOPROXY=off", "GOSUMDB=off", "GOTOOLCHAIN=local")
@@ -238,6 +264,7 @@ func Load(dir, goos, goarch string) (*Program, error) {
 	}
 	computeGlobalAliases(prog)
 	all := ssautil.AllFunctions(prog)
+	normaliseComparisons(all)
 	// names of unexported functions/methods that occur once in their (module) package
 	{
 		cnt := map[string]int{}
